@@ -185,6 +185,8 @@ def run(tier, seed):
     nr = 150 if tier == "quick" else 1500
     gen_defs = {
         "ErrEmpty": ("NOT_FOUND", "Verif:ErrEmpty", []),
+        "IoError": ("INTERNAL", "Verif:IOError", [("path", True, "string")]),
+        "A1b2Mismatch": ("FAILED_PRECONDITION", "Verif:A1B2Mismatch", [("n", False, "int")]),
         "ErrOptOnly": ("CONFLICT", "Verif:ErrOptOnly", [("so", True, "opt"), ("us", False, "string")]),
         "ErrSorted": ("CUSTOM_CLIENT", "Other:ErrSorted", [("zeta", True, "string"), ("alpha", True, "string"), ("mid", True, "int"), ("beta", False, "string")]),
         "ErrKeyword": ("TIMEOUT", "Verif:ErrKeyword", [("type", True, "string"), ("fooBar", True, "int"), ("self", False, "string"), ("snake_case", False, "listint")]),
